@@ -90,7 +90,7 @@ func (c09) Thresholds(tier string) map[string]int64 {
 }
 
 func (c09) Rule() string {
-	return "case = one generated program that uses dice, random and random_range in lines, if conditions, option conditions, set statements and computed jump targets (bounds up to 9*10^15, so spans beyond 2^31 and 2^32 occur), one program in three with a line that fails on an unknown variable (error texts are part of the digest), one seed over [0-9a-z] (lengths 1-40: single characters, all zeros, long seeds that overflow the base-36 accumulation) and one PRNG choice policy. The case is executed: twice in-process back to back; once more in-process after 1-20 unrelated runners (other seeds, the empty seed) were created and stepped; and in 3 fresh processes per chunk of cases (GOMAXPROCS 1 / 4 / 16, executing the chunk forwards, backwards and shuffled, so that 'what ran before' differs). Oracle: all executions have the same SHA-256 digest over every element (node, text, tags, attribute list, options and flags), every error text and the final GetValues(). Range sub-workload per case: 70 captured draws with bounds incl. dice(1), a == b, negative bounds and spans up to 2^31, with the case's seed or the empty seed: dice(n) is an integer in [1,n], random_range(a,b) an integer in [a,b], random() in [0,1). Also per case: one call site of each built-in whose bounds are compound expressions over variables ($n * 1, $lo + 0 ...), run six times by the same runner while the host changes the variables between passes (every draw within the bounds of its pass). One case per chunk runs a 60-round loop twice, with host functions that answer at once and with host functions that take 25 ms each (1.5 s inside one Next): same run. Non-trivial: the trace has >=3 random draw sites and the program branches on a draw. Distinct by hash of scripts+seed+choice policy. Each execution is also repeated with other runners created (and partly driven) between its creation and its steps. One case per chunk aims at the bounds of random(): the harness walks the generator (internal/rng) over 48 million draws of PRNG seeds, keeps the 10 draws closest to 1 and the 3 closest to 0, and makes the real runner produce exactly those draws (a script calling random() k+1 times under that seed); every value returned through the runner must be in [0,1). One program in fifteen contains a jump whose destination is a number, boolean or draw (error texts are part of the digest)."
+	return "case = one generated program that uses dice, random and random_range in lines, if conditions, option conditions, set statements and computed jump targets (bounds up to 9*10^15, so spans beyond 2^31 and 2^32 occur), one program in three with a line that fails on an unknown variable (error texts are part of the digest), one seed over [0-9a-z] (lengths 1-40: single characters, all zeros, long seeds that overflow the base-36 accumulation) and one PRNG choice policy. The case is executed: twice in-process back to back; once more in-process after 1-20 unrelated runners (other seeds, the empty seed) were created and stepped; and in 3 fresh processes per chunk of cases (GOMAXPROCS 1 / 4 / 16, executing the chunk forwards, backwards and shuffled, so that 'what ran before' differs). Oracle: all executions have the same SHA-256 digest over every element (node, text, tags, attribute list, options and flags), every error text and the final GetValues(). Range sub-workload per case: 70 captured draws with bounds incl. dice(1), a == b, negative bounds and spans up to 2^31, with the case's seed or the empty seed: dice(n) is an integer in [1,n], random_range(a,b) an integer in [a,b], random() in [0,1). Also per case: one call site of each built-in whose bounds are compound expressions over variables ($n * 1, $lo + 0 ...), run six times by the same runner while the host changes the variables between passes (every draw within the bounds of its pass). One case per chunk runs a 60-round loop twice, with host functions that answer at once and with host functions that take 25 ms each (1.5 s inside one Next): same run. Half of the executions (decided by the choice policy) load a save in mid-run: the runner's snapshot rebuilt field by field from its three documented fields and restored into the running dialogue; the draws that follow belong to the digest. Non-trivial: the trace has >=3 random draw sites and the program branches on a draw. Distinct by hash of scripts+seed+choice policy. Each execution is also repeated with other runners created (and partly driven) between its creation and its steps. One case per chunk aims at the bounds of random(): the harness walks the generator (internal/rng) over 48 million draws of PRNG seeds, keeps the 10 draws closest to 1 and the 3 closest to 0, and makes the real runner produce exactly those draws (a script calling random() k+1 times under that seed); every value returned through the runner must be in [0,1). One program in fifteen contains a jump whose destination is a number, boolean or draw (error texts are part of the digest)."
 }
 
 func (c09) Assumptions() []string {
@@ -235,6 +235,18 @@ func c09ExecOpts(scripts []string, seed string, choiceSeed uint64, hook func(ste
 		if o.Kind == mon.KEnd || o.Kind == mon.KPanic {
 			break
 		}
+		if choiceSeed%2 == 0 && step == int(choiceSeed/2%7) && (o.Kind == mon.KLine || o.Kind == mon.KOptions) {
+			// the host loads a save in mid-run: a snapshot rebuilt field by field from the three documented fields
+			// (what a save-file decoder produces), restored into the running dialogue - part of the execution like
+			// any choice, so every execution of the case does it at the same step
+			s := rr.DR.Snapshot()
+			if err := rr.RestoreAt(&ysgo.Snapshot{CurrentNode: s.CurrentNode, Variables: s.Variables, VisitedNodes: s.VisitedNodes}); err != nil {
+				h.Write([]byte("restore failed: " + err.Error() + "\n"))
+			} else {
+				h.Write([]byte("restored at " + s.CurrentNode + "\n"))
+			}
+			arg = 0
+		}
 		if o.Kind == mon.KErr {
 			errors++
 			if errors >= 3 {
@@ -334,6 +346,19 @@ func (p c09) Run(c *core.Ctx) {
 	cfg.Tracking = false
 	cfg.Unicode = false
 	prog := gen.Flow(r, cfg)
+	{
+		// calls whose arguments each draw: the order of the draws is the order of the arguments, every time
+		b := &prog.Nodes[0].Body
+		at := r.Range(min(8, len(*b)), len(*b))
+		two := &hast.Stmt{K: hast.SLine, Parts: []hast.Part{hast.Lit("two draws "),
+			hast.Inl(hast.Call("random_range", hast.Call("dice", hast.Num("1000")), hast.Bin("+", hast.Num("1000"), hast.Call("dice", hast.Num("1000"))))), hast.Lit(" "),
+			hast.Inl(hast.Call("round_places", hast.Call("random"), hast.Call("dice", hast.Num("6")))), hast.Lit(" "),
+			hast.Inl(hast.Call("random_range", hast.Call("random_range", hast.Num("1"), hast.Num("500")), hast.Call("random_range", hast.Num("500"), hast.Num("100000"))))}}
+		nb := append([]*hast.Stmt{}, (*b)[:at]...)
+		nb = append(nb, two)
+		*b = append(nb, (*b)[at:]...)
+		c.Feature("calls-whose-arguments-each-draw")
+	}
 	if r.Chance(1, 3) {
 		// a line that fails (unknown variable) somewhere in the start node: error texts are part of the
 		// digest, and the run goes on after the error
